@@ -292,7 +292,9 @@ class Quote(BlockToken):
 
     @staticmethod
     def convert_leading_tabs(string):
-        string = string.replace('>\t', '   ', 1)
+        if not string.startswith('>\t'):
+            return string
+        string = '   ' + string[2:]
         count = 0
         for i, c in enumerate(string):
             if c == '\t':
